@@ -3,6 +3,7 @@ import Jwt.Generated.DigestTables
 import Jwt.Lemmas.StrCmp
 import Jwt.Verify
 import Jwt.Builder
+import Jwt.Lemmas.StrCmpCode
 /-!
 # C12 — crypto providers are interchangeable
 
@@ -183,5 +184,14 @@ example : setOpsByName 1 [103, 110, 117, 116, 108] = (1, 1) := by decide +kernel
 example : setOpsByName 1 [79, 112, 101, 110, 83, 83, 76] = (1, 1) := by decide +kernel           -- "OpenSSL": refused
 example : setOpsById 0 2 = (1, 0) ∧ setOpsById 1 3 = (1, 1) ∧ setOpsById 1 0 = (1, 1) := by decide +kernel
 example : initOps (some [103, 110, 117, 116, 108, 115]) = 1 ∧ initOps (some [120]) = 0 := by decide +kernel
+
+/-- **The name comparison is the source's.**  `jwt_strcmp` as translated statement by statement from jwt-memory.c (every store
+wrapped in the width of the variable's declared type) returns 0 exactly for equal strings of every length, and agrees with
+the hand-written `jwtStrcmp` the provider table is searched with: a provider is selected by its exact name only -/
+theorem C12_name_compare_is_source :
+    (∀ a b : List Nat, StrCmpCode.IsOctets a → StrCmpCode.IsOctets b → (Generated.StrCmpCode.jwtStrcmp a b = 0 ↔ a = b)) ∧
+    (∀ a b : Bytes, Generated.StrCmpCode.jwtStrcmp (a.map UInt8.toNat) (b.map UInt8.toNat) = 0 ↔ jwtStrcmp a b = 0) :=
+  ⟨StrCmpCode.jwtStrcmp_zero_iff, StrCmpCode.translated_agrees_with_model⟩
+
 
 end Jwt.Props.C12
